@@ -1,9 +1,5 @@
-import Lean.Data.Json
-import TxV.Model.Util
-import TxV.Model.Sched
+import TxV.Model.CoreProto
 import TxV.Core.Bridge
-open TxV TxV.Proto TxV.CoreModel Lean
-
 /-!
 Line protocol of the core (transaction manager) model.
 
@@ -23,151 +19,6 @@ Line protocol of the core (transaction manager) model.
 * anything else: `bad-op`
 -/
 
-structure St where
-  D : Design
-  E : Elab
-  order : List BodyId
-  nSites : Nat
-  -- static tables computed once per design
-  ts : List BodyId
-  ms : List BodyId
-  sites : List (BodyId × Call)
-  sp : List (SiteId × SiteId)
-  bp : List (BodyId × BodyId)
-
-def bitsOf (s : String) : List Bool := if s == "-" then [] else s.toList.map (· == '1')
-def showBits (l : List Bool) : String := if l.isEmpty then "-" else String.ofList (l.map fun b => if b then '1' else '0')
-
-def jNat (j : Json) (k : String) : Except String Nat := do (← j.getObjVal? k).getNat?
-def jFlag (j : Json) (k : String) : Except String Bool := do return (← jNat j k) != 0
-def jArr (j : Json) (k : String) : Except String (Array Json) := do (← j.getObjVal? k).getArr?
-
-def parseEdges (a : Array Json) : Except String (List PathEdge) :=
-  a.toList.mapM fun e => do
-    let p ← e.getArr?
-    match p.toList with
-    | [x, y] => return ⟨← x.getNat?, ← y.getNat?⟩
-    | _ => throw "edge"
-
-def parsePath (j : Json) (km kp : String) : Except String CtrlPath := do
-  return ⟨← (← j.getObjVal? km).getInt?, ← parseEdges (← jArr j kp)⟩
-
-def parsePrio : String → Except String Priority
-  | "U" => pure .undefined | "L" => pure .left | "R" => pure .right | _ => throw "prio"
-
-def parseComb : String → Except String Combiner
-  | "mux" => pure .mux | "or" => pure .orAll | "sum" => pure .sum | "xor" => pure .xor | "count" => pure .count
-  | _ => throw "combiner"
-
-def parsePred (j : Json) : Except String (Option Pred) := do
-  if j.isNull then return none
-  match (← j.getArr?).toList with
-  | [k, c] =>
-    let c ← c.getNat?
-    match ← k.getStr? with
-    | "eq" => return some (.eqC c) | "ne" => return some (.neC c)
-    | "lt" => return some (.ltC c) | "bit" => return some (.bit c)
-    | _ => throw "pred"
-  | _ => throw "pred"
-
-def parseOut (j : Json) : Except String OutFn := do
-  match (← j.getArr?).toList with
-  | [k] => match ← k.getStr? with
-    | "loc" => return .loc | "xorLoc" => return .xorLoc | "addLoc" => return .addLoc | _ => throw "out"
-  | [k, c] => if (← k.getStr?) == "const" then return .const (← c.getNat?) else throw "out"
-  | _ => throw "out"
-
-def parseBody (j : Json) : Except String Body := do
-  let calls ← (← jArr j "calls").toList.mapM fun c => do
-    return ({ callee := ← jNat c "c", path := ← parsePath c "m" "p", site := ← jNat c "s" } : Call)
-  let rels ← (← jArr j "rels").toList.mapM fun r => do
-    return ({ dst := ← jNat r "d", prio := ← parsePrio (← (← r.getObjVal? "p").getStr?),
-              conflict := ← jFlag r "c", readyDep := ← jFlag r "rd", silence := ← jFlag r "sl" } : Rel)
-  let dp ← j.getObjVal? "dp"
-  return { isTrans := ← jFlag j "t", defPath := ← parsePath dp "m" "p", defOrder := ← jNat j "do",
-           nonexclusive := ← jFlag j "nx", singleCaller := ← jFlag j "sc",
-           validate := ← parsePred (← j.getObjVal? "val"),
-           combiner := ← parseComb (← (← j.getObjVal? "comb").getStr?),
-           inW := ← jNat j "iw", outW := ← jNat j "ow", outFn := ← parseOut (← j.getObjVal? "out"),
-           calls := calls, rels := rels }
-
-def parseNats (a : Array Json) : Except String (List Nat) := a.toList.mapM (·.getNat?)
-
-def parseDesign (line : String) : Except String (Design × Option (List Nat)) := do
-  let j ← Json.parse line
-  let bodies ← (← jArr j "bodies").toList.mapM parseBody
-  let D : Design := ⟨bodies, ← parseNats (← jArr j "trans"), ← parseNats (← jArr j "meths")⟩
-  let po ← j.getObjVal? "porder"
-  let order ← if po.isNull then pure none else do pure (some (← parseNats (← po.getArr?)))
-  return (D, order)
-
-def showAssoc (l : List (Nat × List Nat)) : String :=
-  if l.isEmpty then "-" else ";".intercalate (l.map fun (k, vs) => s!"{k}:{showList vs}")
-
-def sortedByKey (n : Nat) (l : List (Nat × List Nat)) : List (Nat × List Nat) :=
-  (List.range n).filterMap fun k => l.find? (·.1 == k)
-
-def summary (D : Design) (E : Elab) (order : Option (List Nat)) : String :=
-  let n := D.bodies.length
-  let edges := E.g.edgeList n
-  let cgr := if edges.isEmpty then "-" else ",".intercalate (edges.map fun (a, b) => s!"{a}-{b}")
-  let ccs := E.g.ccs n D.transactions
-  let ccsS := if ccs.isEmpty then "-" else "|".intercalate (ccs.map showList)
-  let vo := match order with | some o => validOrder E.g.before D.transactions o | none => false
-  -- `hyp`: the static hypotheses of the Props theorems hold for this design (TxV.Core.Bridge.staticOk)
-  let hyp := match order with | some o => TxV.Core.Bridge.staticOk D E o | none => false
-  s!"ok mbt={showAssoc (sortedByKey n E.mm.mbt)} tbm={showAssoc (sortedByKey n E.mm.tbm)} cgr={cgr} ccs={ccsS} vo={showBool vo} hyp={showBool hyp}"
-
-def showNats (l : List Nat) : String := showList l
-
-def evalLine (st : St) (t : List String) : String :=
-  let D := st.D
-  let E := st.E
-  let n := D.bodies.length
-  let r := bitsOf ((kv? t "r").getD "-")
-  let e := bitsOf ((kv? t "e").getD "-")
-  let a := natListOf t "a"
-  let l := natListOf t "l"
-  if r.length != n || e.length != st.nSites || a.length != st.nSites || l.length != n then "bad-op"
-  else
-    let v : Val := { ready := fun b => r.getD b false, en := fun s => e.getD s false,
-                     arg := fun s => a.getD s 0, loc := fun b => l.getD b 0 }
-    let ran := evalEagerList D E v st.order
-    let run : BodyId → Bool := fun t => ran.contains t
-    let ids := List.range n
-    let runs := ids.map (runAny E v run)
-    let rb : BodyId → Bool := fun b => runs.getD b false
-    let rn := st.ts.map (runnable D E v run)
-    let act := st.sites.map fun (src, c) => siteActive v rb src c
-    let din := st.ms.map (dataIn D E v rb)
-    let dout := st.ms.map (dataOut D E v rb)
-    let doutOf : BodyId → Nat := fun m => match st.ms.idxOf m with | i => dout.getD i 0
-    let res := st.sites.map fun (_, c) => doutOf c.callee
-    s!"rn={showBits rn} run={showBits runs} act={showBits act} din={showNats din} dout={showNats dout} res={showNats res} hx={showBool (exclHoldsOn v st.sp st.bp)} cons={showBool (consistentEager D E v st.order run)} hyp={showBool (TxV.Core.Bridge.cycleOk D E st.order v run)}"
-
-def stepLine (st : Option St) (line : String) : Option St × String :=
-  let line := line.trimAscii.toString
-  if line.startsWith "{" then
-    match parseDesign line with
-    | .error e => (none, s!"bad-op json {e}")
-    | .ok (D, order) =>
-      match elaborate D with
-      | .error k => (none, s!"reject kind={k.name}")
-      | .ok E =>
-        let nSites := D.allSites.length
-        -- site ids must be dense 0..nSites-1 for the positional valuation format
-        if !(D.allSites.all fun (_, c) => decide (c.site < nSites)) then (none, "bad-op sites")
-        else
-          let ids := List.range D.bodies.length
-          let st : St := { D, E, order := order.getD [], nSites,
-                           ts := ids.filter D.transactions.contains, ms := ids.filter D.methods.contains,
-                           sites := (List.range nSites).filterMap fun s => D.allSites.find? (·.2.site == s),
-                           sp := exclSitePairs D, bp := exclBodyPairs D }
-          (some st, summary D E order)
-  else
-    let t := tokens line
-    match t.head?, st with
-    | some "v", some st => (some st, evalLine st t)
-    | _, _ => (st, "bad-op")
-
-def main : IO Unit := Proto.run (none : Option St) stepLine
+def main : IO Unit :=
+  TxV.Proto.run (none : Option TxV.CoreProto.St)
+    (TxV.CoreProto.stepLine TxV.Core.Bridge.staticOk TxV.Core.Bridge.cycleOk)
